@@ -96,12 +96,53 @@ func biasC04() Bias {
 	return b
 }
 
+// growTarget: a target that was assigned while it was small has grown beyond a limit: one in-sync shard holds it (settled,
+// healthy) and nothing else, and reports exactly its load.
+func growTarget(t *rapid.T, sc *Scenario) {
+	if len(sc.Targets) == 0 || len(sc.Replicas) == 0 || sc.Opt.MaxProc > 1e15 {
+		return
+	}
+	rs := &sc.Replicas[0]
+	var ok []int
+	for i := range rs.Shards {
+		if sp := &rs.Shards[i]; sp.Ready && sp.StatusOK && sp.Runtime1OK && sp.HashEqual {
+			ok = append(ok, i)
+		}
+	}
+	if len(ok) == 0 {
+		return
+	}
+	si := ok[rapid.IntRange(0, len(ok)-1).Draw(t, "grownOn")]
+	tg := &sc.Targets[rapid.IntRange(0, len(sc.Targets)-1).Draw(t, "grownTargetIdx")]
+	tg.Explore = "good"
+	tg.Total = sc.Opt.MaxProc + int64(rapid.IntRange(1, 500).Draw(t, "grownBy"))
+	tg.Series = tg.Total
+	if rapid.Bool().Draw(t, "grownDropsSamples") {
+		tg.Series = tg.Total / 2
+	}
+	for i := range rs.Shards {
+		var keep []Held
+		for _, h := range rs.Shards[i].Held {
+			if h.Hash != tg.Hash {
+				keep = append(keep, h)
+			}
+		}
+		rs.Shards[i].Held = keep
+	}
+	sp := &rs.Shards[si]
+	sp.Held = []Held{{Hash: tg.Hash, Health: "up", Times: uint64(rapid.IntRange(3, 9).Draw(t, "grownTimes")), Series: tg.Series, Total: tg.Total}}
+	sp.HeadExtra, sp.Head2 = 0, 0
+}
+
 func TestC04(t *testing.T) {
 	rec := recC04()
 	rapid.Check(t, func(t *rapid.T) {
 		b := biasC04()
 		b.SmallSizes = rapid.Bool().Draw(t, "smallSizes")
 		sc := Gen(t, b)
+		if rapid.IntRange(0, 7).Draw(t, "grownTarget") == 0 {
+			growTarget(t, sc)
+		}
 		if msg := Check(rec, "TestC04", sc, JudgeC04, Execs()); msg != "" {
 			t.Fatalf("%s", msg)
 		}
